@@ -150,6 +150,86 @@ def fxParent (opts : List Deadline) : Deadline :=
 def fxDeadline (timeout : Int) (opts : List Deadline) (now : Int) : Deadline :=
   withTimeout (fxParent opts) now timeout
 
+/-! ### the interceptors as closures: captured variables, the per-call selection of the timeout, sequences of calls
+
+The definitions below follow the source statement by statement (they are what `Tie` proves equal to the translation of
+the Go code); `Props` proves them equal to the declarative `srvTimeout` / `cliTimeout` / `fxParent` above. -/
+
+/-- a Go `map[string]time.Duration` (method names are numbers, 0 = "") as an association list without duplicate keys -/
+abbrev MTable := List (Nat × Int)
+
+/-- `v, ok := m[k]` -/
+def tableGet (m : MTable) (k : Nat) : Option Int := (m.find? (fun p => p.1 == k)).map (·.2)
+
+/-- `m[k] = v` -/
+def tableSet (m : MTable) (k : Nat) (v : Int) : MTable := m.filter (fun p => p.1 != k) ++ [(k, v)]
+
+/-- `buildMethodTimeouts`: `for _, st := range timeouts { if st.FullMethod != "" { mt[st.FullMethod] = st.Timeout } }` -/
+def buildMethodTimeouts (timeouts : List (Nat × Int)) : MTable :=
+  timeouts.foldl (fun mt st => if st.1 != 0 then tableSet mt st.1 st.2 else mt) []
+
+/-- `getTimeoutByUnaryServerInfo`: `if v, ok := timeouts[method]; ok { return v }; return defaultTimeout` -/
+def getTimeoutByUnaryServerInfo (method : Nat) (timeouts : MTable) (defaultTimeout : Int) : Int :=
+  match tableGet timeouts method with
+  | some v => v
+  | none => defaultTimeout
+
+/-- what the closure returned by `UnaryTimeoutInterceptor(timeout, methodTimeouts...)` has captured -/
+structure SrvInst where
+  timeout  : Int
+  timeouts : MTable
+  deriving Repr, DecidableEq
+
+def SrvInst.new (timeout : Int) (methodTimeouts : List (Nat × Int)) : SrvInst :=
+  { timeout := timeout, timeouts := buildMethodTimeouts methodTimeouts }
+
+/-- one call through the closure: the deadline of the context handed to the handler, and the captured variables
+afterwards (the closure assigns to none of them: `t` is a per-call local). -/
+def SrvInst.call (i : SrvInst) (method : Nat) (parent : Deadline) (now : Int) : Deadline × SrvInst :=
+  (withTimeout parent now (getTimeoutByUnaryServerInfo method i.timeouts i.timeout), i)
+
+/-- a call as the interceptor sees it -/
+structure Call where
+  method : Nat
+  opts   : List (Option Int) := []     -- client only: the call options
+  parent : Deadline
+  now    : Int
+  deriving Repr, DecidableEq
+
+/-- a sequence of calls through ONE closure: the deadlines handed to the handlers, in order -/
+def SrvInst.run (i : SrvInst) : List Call → List Deadline
+  | [] => []
+  | c :: cs => (i.call c.method c.parent c.now).1 :: (i.call c.method c.parent c.now).2.run cs
+
+/-- `getTimeoutFromCallOptions`: `for _, opt := range opts { if o, ok := opt.(TimeoutCallOption); ok { return o.timeout } };
+return defaultTimeout` -/
+def getTimeoutFromCallOptions (opts : List (Option Int)) (defaultTimeout : Int) : Int :=
+  match opts.findSome? (fun opt => opt) with
+  | some t => t
+  | none => defaultTimeout
+
+/-- what the closure returned by the client's `TimeoutInterceptor(timeout)` has captured -/
+structure CliInst where
+  timeout : Int
+  deriving Repr, DecidableEq
+
+/-- `t := getTimeoutFromCallOptions(opts, timeout); if t <= 0 { return invoker(ctx, …) };
+ctx, cancel := context.WithTimeout(ctx, t); return invoker(ctx, …)` -/
+def CliInst.call (i : CliInst) (opts : List (Option Int)) (parent : Deadline) (now : Int) : Deadline × CliInst :=
+  let t := getTimeoutFromCallOptions opts i.timeout
+  (if t ≤ 0 then parent else withTimeout parent now t, i)
+
+def CliInst.run (i : CliInst) : List Call → List Deadline
+  | [] => []
+  | c :: cs => (i.call c.opts c.parent c.now).1 :: (i.call c.opts c.parent c.now).2.run cs
+
+/-- fx.DoWithTimeout: `parentCtx := context.Background(); for _, opt := range opts { parentCtx = opt() }` -/
+def fxParentLoop (opts : List Deadline) : Deadline := opts.foldl (fun _ opt => opt) none
+
+/-- `TimeoutHandler(duration)`: `if duration <= 0 { return next }` and ServeHTTP's exemption test on the two request
+headers -/
+def restExempt (upgrade accept : String) : Bool := upgrade == "websocket" || accept == "text/event-stream"
+
 /-! ## Part 2 — REST: timeoutWriter and the two threads -/
 
 abbrev Hdrs := List (Nat × Nat)
